@@ -72,6 +72,8 @@ def run(db, rep, tier):
                           "capture although frames remain")
         else:
             rep.ok("R4-loop-shape", "%s:marks-processed" % key, facts.loc(h), "packet_processed = true on every path")
+    rep.rule("R2-link-types", "every link type the capture-file writer can announce for a layer class has a reader arm that creates that class", 8)
+    link_types(db, rep, f)
     rep.rule("R3-read-bounds", "a pcap handler reads the captured bytes itself only under a guard on the captured length", 9)
     for fid in sorted(seen):
         h = db.fn(fid)
@@ -84,6 +86,76 @@ def run(db, rep, tier):
                        "agreement are not decided." % len(seen))
     rep.assumptions += ["libpcap invokes the handler at most once per pcap_loop(...,1,...) call",
                         "allocation failure ignored"]
+
+
+SPECIAL_HANDLERS = {          # hand-written handlers and the classes they create
+    "Tins::sniff_loop_eth_handler": {"Tins::EthernetII", "Tins::Dot3"},
+    "Tins::sniff_loop_raw_handler": {"Tins::IP", "Tins::IPv6"},
+    "Tins::sniff_loop_dot11_handler": {"Tins::Dot11"},
+}
+
+
+def link_types(db, rep, f):
+    """writer table DataLinkType<T>::type  vs  the reader's switch over pcap_datalink()"""
+    from vlib import table as tbl
+    sws = [n for n in facts.fn_nodes(f) if n["k"] == "SwitchStmt"]
+    if not sws:
+        rep.analysis_broken("next_packet: switch over the link type not found")
+        return
+    arms = {}
+
+    def visit(lbl, vals):
+        inner = lbl
+        while inner is not None and inner["k"] in ("CaseStmt", "DefaultStmt"):
+            if inner["k"] == "CaseStmt":
+                vals = vals + [facts.cval(inner["c"][0])]
+            inner = inner["c"][-1] if inner.get("c") else None
+        return vals, inner
+    body = [x for x in sws[0]["c"] if x is not None][-1]
+    cur_vals = []
+    for st in body.get("c", []):
+        if st["k"] in ("CaseStmt", "DefaultStmt"):
+            cur_vals, first = visit(st, [])
+            stmts = [first] if first is not None else []
+        else:
+            stmts = [st]
+        for s_ in stmts:
+            for x in facts.walk(s_):
+                if x["k"] == "DeclRefExpr" and x.get("fn"):
+                    for v in cur_vals:
+                        arms.setdefault(int(v), set()).add(x["fn"])
+    n = 0
+    for rn, r in sorted(db.records.items()):
+        if not rn.startswith("Tins::DataLinkType<"):
+            continue
+        cls = rn[len("Tins::DataLinkType<"):-1]
+        tv = [s_ for s_ in r.get("statics", []) if s_["name"] == "type" and "v" in s_]
+        if not tv:
+            continue
+        n += 1
+        v = tv[0]["v"]
+        key = "DataLinkType<%s>" % cls.split("::")[-1]
+        site = "%s:%s" % (r["file"], r["line"])
+        hs = arms.get(v)
+        if not hs:
+            rep.violation("R2-link-types", key, site,
+                          "a capture written with DataLinkType<%s> announces link type %d, for which BaseSniffer::next_packet has no arm: "
+                          "reading the file back throws unknown_link_type" % (cls.split("::")[-1], v))
+            continue
+        made = set()
+        for h in hs:
+            q = h.split("(")[0]
+            if q in SPECIAL_HANDLERS:
+                made |= SPECIAL_HANDLERS[q]
+            elif q.startswith("Tins::sniff_loop_handler<"):
+                made.add(q[len("Tins::sniff_loop_handler<"):-1])
+        fam = {cls} | set(db.all_bases(cls))
+        if made & fam or any(cls in db.all_bases(m) for m in made):
+            rep.ok("R2-link-types", key, site, "link type %d -> %s" % (v, sorted(x.split("::")[-1] for x in made)))
+        else:
+            rep.violation("R2-link-types", key, site, "link type %d is read back as %s, not as %s" % (v, sorted(made), cls))
+    if n < 8:
+        rep.analysis_broken("only %d DataLinkType specialisations found" % n)
 
 
 def read_bounds(db, rep, h):
